@@ -53,12 +53,12 @@ def near_misses(e):
 
 def load():
     import sys
-    if "/repo" not in sys.path:
-        sys.path.insert(0, "/repo")
+    if __import__("harness").REPO not in sys.path:
+        sys.path.insert(0, __import__("harness").REPO)
     import warnings
     warnings.simplefilter("ignore")
     from asyncfix.protocol.schema import FIXSchema
-    return {"FIX44": FIXSchema("/repo/tests/FIX44.xml"), "TT": FIXSchema("/repo/tests/TT-FIX44.xml")}
+    return {"FIX44": FIXSchema(__import__("harness").REPO + "/tests/FIX44.xml"), "TT": FIXSchema(__import__("harness").REPO + "/tests/TT-FIX44.xml")}
 
 
 _SCH = {}
